@@ -365,6 +365,7 @@ PROPS = {
     },
     "C26": {
         "category": "other",
+        "technique": "BOUNDED run-time check of random interleavings against the statement's five clauses (harness/C26.py) decides the property; only two edge contracts (deploy, get_connector) are proved by pyvc",
         "harness_modes": ["crosscheck"],
         "explanation": "BOUNDED ONLY for the property itself. The lifecycle is a protocol over interleavings of coroutines (_deploy, _inner_deploy, undeploy, the per-deployment "
         "events); the verifier has no yield-point invariants, so no clause of C26 is proved. The only obligations are two edge contracts: deploy() leaves the deployment "
